@@ -815,7 +815,9 @@ def _check_trickery_available() -> bool:
                 "Information about context managers will be less detailed. ",
                 InspectionWarning,
             )
-    return _can_use_trickery
+        # (still under the lock: once it is released, set_trickery_enabled()
+        # on another thread may change the setting again)
+        return _can_use_trickery
 
 
 def analyze_with_blocks(code: types.CodeType) -> Dict[int, Context]:
